@@ -1772,6 +1772,238 @@ theorem many_named_rejected :
     ofSegs [.named ['a'] [.star], .tok (.lit ['x']), .named ['b'] [.star]] = .error (.manyNamed 2) := by
   rfl
 
+/-! ## Second deepening round: the http rule (custom verbs, additional bindings), `{key}`,
+what the transports do with the metadata, templates without named segment in the emitted chain -/
+
+private def tt2 : ClassTables := ⟨[], [], []⟩
+
+/-- whatever member of the `pattern` oneof carries the path (get / put / post / delete / patch /
+`custom {kind, path}`), `field_headers` reads that path -/
+theorem primary_path_of_rule (h : HttpRule) : primaryPath h.verbs = h.path := by
+  obtain ⟨v, p, a⟩ := h
+  cases v <;> cases p <;> simp [HttpRule.verbs, primaryPath, List.find?]
+
+/-- **Implicit routing depends on the http rule only through the path of its primary binding**:
+the verb (in particular a `custom` verb: `custom { kind: "HEAD" path: … }`) and the additional
+bindings do not influence the header. -/
+theorem implicit_depends_on_primary_path_only (ct : ClassTables) (h1 h2 : HttpRule) (hp : h1.path = h2.path)
+    (cs : Bool) (r : Request) :
+    header ct (methodOf none (some h1) cs) r = header ct (methodOf none (some h2) cs) r := by
+  simp only [header, methodOf, verbsOf, primary_path_of_rule, hp]
+
+/-- instance: a custom verb routes like `get` with the same path, additional bindings or not -/
+theorem custom_verb_routes_like_get (ct : ClassTables) (kind path : List Char)
+    (bs : List (Verb × List Char)) (cs : Bool) (r : Request) :
+    header ct (methodOf none (some ⟨.custom kind, path, bs⟩) cs) r
+      = header ct (methodOf none (some ⟨.get, path, []⟩) cs) r :=
+  implicit_depends_on_primary_path_only ct _ _ rfl cs r
+
+/-- the variables sent for a method are exactly those of the primary binding's path, for every
+member of the oneof (`implicit_vars_exact` through `HttpRule`) -/
+theorem implicit_rule_vars_exact (ct : ClassTables) (h : HttpRule) (segs : List PSeg) (hw : WFPath segs)
+    (hp : h.path = renderPath segs) :
+    fieldHeaders ct (primaryPath (verbsOf (some h))) = pathVars segs := by
+  simp only [verbsOf, primary_path_of_rule, hp]
+  exact implicit_vars_exact ct segs hw
+
+/-- hypotheses of `implicit_rule_vars_exact` on `custom {kind: "HEAD", path: "/v1/{name=shelves/*}"}` with an
+additional binding on another variable -/
+example :
+    let h : HttpRule := ⟨.custom ['H','E','A','D'], ['/','v','1','/','{','n','a','m','e','=','s','h','e','l','v','e','s','/','*','}'],
+      [(.get, ['/','v','1','/','{','p','a','r','e','n','t','}'])]⟩
+    let segs : List PSeg := [.lit ['/','v','1','/'], .var ['n','a','m','e'] (some ['s','h','e','l','v','e','s','/','*'])]
+    WFPath segs ∧ h.path = renderPath segs ∧ pathVars segs = [['n','a','m','e']] := by
+  simp [WFPath, renderPath, pathVars]
+
+/-- no `google.api.http` option and no routing annotation: no header -/
+theorem no_http_rule_no_header (ct : ClassTables) (cs : Bool) (r : Request) :
+    header ct (methodOf none none cs) r = none := by
+  have h : fieldHeaders ct (primaryPath (verbsOf none)) = [] := by
+    have := implicit_vars_exact ct [] trivial
+    simpa [verbsOf, primaryPath, renderPath, pathVars] using this
+  cases cs <;> simp [header, methodOf, implicitHeader, h]
+
+/-! ### `{key}` -/
+
+section AuxBare
+theorem isNamed_unbare (s : Seg) : s.unbare.isNamed = s.isNamed := by cases s <;> rfl
+theorem tok?_unbare (s : Seg) : s.unbare.tok? = s.tok? := by cases s <;> rfl
+
+theorem filter_isNamed_unbare (r : List Seg) :
+    ((r.map Seg.unbare).filter Seg.isNamed).length = (r.filter Seg.isNamed).length := by
+  induction r with
+  | nil => rfl
+  | cons s r ih =>
+    simp only [List.map_cons, List.filter_cons, isNamed_unbare]
+    split <;> simp [ih]
+
+theorem filterMap_tok?_unbare (r : List Seg) :
+    (r.map Seg.unbare).filterMap Seg.tok? = r.filterMap Seg.tok? := by
+  induction r with
+  | nil => rfl
+  | cons s r ih => simp only [List.map_cons, List.filterMap_cons, tok?_unbare, ih]
+
+theorem ofSegsAux_unbare : ∀ (segs : List Seg) (acc : List Tok),
+    ofSegsAux (segs.map Seg.unbare) acc = ofSegsAux segs acc := by
+  intro segs
+  induction segs with
+  | nil => intro acc; rfl
+  | cons s r ih =>
+    intro acc
+    cases s with
+    | tok t => simp only [List.map_cons, Seg.unbare, ofSegsAux, ih]
+    | named k sub =>
+      simp only [List.map_cons, Seg.unbare, ofSegsAux, filter_isNamed_unbare, filterMap_tok?_unbare]
+    | bare k =>
+      simp only [List.map_cons, Seg.unbare, ofSegsAux, filter_isNamed_unbare, filterMap_tok?_unbare]
+end AuxBare
+
+/-- **`{key}` is `{key=*}`**: a template with the short form parses to the same `Template` (hence the
+same regex, key and captures) as the one with every `{key}` written `{key=*}`; two named segments
+of either form are rejected alike. -/
+theorem bare_is_star (segs : List Seg) : ofSegs (segs.map Seg.unbare) = ofSegs segs :=
+  ofSegsAux_unbare segs []
+
+/-- `projects/{k}` captures one non-empty segment … -/
+example : (ofSegs [.tok (.lit ['p']), .bare ['k']]).toOption.map (fun t => Model.Routing.capture tt2 t ['p', '/', 'x'])
+    = some (some ['x']) := by decide
+/-- … and is rejected next to another named segment -/
+example : ofSegs [.bare ['a'], .named ['b'] [.star]] = .error (.manyNamed 2) := rfl
+
+/-! ### transports: the metadata sequence, gRPC (every pair) and REST (`dict(metadata)`) -/
+
+section AuxTransport
+theorem getLast?_cons_orElse (v : List Char) (l : List (List Char)) :
+    (v :: l).getLast? = l.getLast?.orElse (fun _ => some v) := by
+  cases l with
+  | nil => rfl
+  | cons a l =>
+    rw [List.getLast?_cons_cons]
+    cases h : (a :: l).getLast? with
+    | none => simp at h
+    | some w => rfl
+
+theorem dictGet_restFold (k : List Char) : ∀ (md : List (List Char × List Char)) (acc : List (List Char × List Char)),
+    dictGet (md.foldl (fun d kv => dictSet d kv.1 kv.2) acc) k
+      = ((grpcValues md k).getLast?).orElse (fun _ => dictGet acc k) := by
+  intro md
+  induction md with
+  | nil => intro acc; simp [grpcValues]
+  | cons kv md ih =>
+    intro acc
+    obtain ⟨k', v⟩ := kv
+    simp only [List.foldl_cons, ih]
+    by_cases h : k' = k
+    · subst h
+      simp only [grpcValues, List.filter_cons, decide_true, if_true, List.map_cons, dictGet_dictSet_same,
+        getLast?_cons_orElse]
+      cases ((List.filter (fun x => decide (x.1 = k')) md).map (·.2)).getLast? <;> rfl
+    · simp only [grpcValues, List.filter_cons, h, decide_false, Bool.false_eq_true, if_false,
+        dictGet_dictSet_other _ _ _ _ h]
+
+theorem grpcValues_append (a b : List (List Char × List Char)) (k : List Char) :
+    grpcValues (a ++ b) k = grpcValues a k ++ grpcValues b k := by
+  simp [grpcValues]
+
+theorem grpcValues_absent (a : List (List Char × List Char)) (k : List Char) (h : ∀ kv ∈ a, kv.1 ≠ k) :
+    grpcValues a k = [] := by
+  simp only [grpcValues, List.map_eq_nil_iff, List.filter_eq_nil_iff]
+  intro kv hkv
+  simpa using h kv hkv
+end AuxTransport
+
+/-- **What an HTTP server sees under a header name is the LAST value a gRPC server sees under
+it**: the REST transports send `dict(metadata)`, the gRPC transports every pair. -/
+theorem rest_value_is_last_grpc_value (md : List (List Char × List Char)) (k : List Char) :
+    restValue md k = (grpcValues md k).getLast? := by
+  unfold restValue restHeaders
+  rw [dictGet_restFold k md []]
+  cases (grpcValues md k).getLast? <;> rfl
+
+/-- **gRPC (sync, asyncio) and REST (sync, asyncio) carry the same routing header**: when neither
+the caller's metadata nor what the wrapped method appends uses the header name, a gRPC server sees
+exactly the value `create_metadata` computed (once, or no such header) and an HTTP server sees the
+same. -/
+theorem transports_agree_on_routing_header (user extra : List (List Char × List Char))
+    (routing : Option (List Char))
+    (hu : ∀ kv ∈ user, kv.1 ≠ hdrName) (he : ∀ kv ∈ extra, kv.1 ≠ hdrName) :
+    grpcValues (callMetadata user routing extra) hdrName = routing.toList ∧
+    restValue (callMetadata user routing extra) hdrName = routing := by
+  have hg : grpcValues (callMetadata user routing extra) hdrName = routing.toList := by
+    unfold callMetadata
+    rw [grpcValues_append, grpcValues_append, grpcValues_absent user _ hu, grpcValues_absent extra _ he]
+    cases routing <;> simp [grpcValues]
+  refine ⟨hg, ?_⟩
+  rw [rest_value_is_last_grpc_value, hg]
+  cases routing <;> rfl
+
+/-- **"sync, asyncio and REST paths agree"**, end to end in the model: for every method and request, a
+gRPC server and an HTTP server both see exactly the header `create_metadata` computes (`header`:
+explicit fold, implicit pairs, or none), whatever else the caller and the wrapped method put into
+the metadata under other names. -/
+theorem every_transport_carries_the_header (ct : ClassTables) (m : Method) (r : Request)
+    (user extra : List (List Char × List Char))
+    (hu : ∀ kv ∈ user, kv.1 ≠ hdrName) (he : ∀ kv ∈ extra, kv.1 ≠ hdrName) :
+    grpcValues (callMetadata user (header ct m r) extra) hdrName = (header ct m r).toList ∧
+    restValue (callMetadata user (header ct m r) extra) hdrName = header ct m r :=
+  transports_agree_on_routing_header user extra (header ct m r) hu he
+
+/-- hypotheses of `transports_agree_on_routing_header`: the caller's `x-verif` pair and api-core's
+`x-goog-api-client` pair do not use the header name -/
+example : (∀ kv ∈ [(['x','-','v','e','r','i','f'], ['1'])], kv.1 ≠ hdrName) ∧
+    (∀ kv ∈ [("x-goog-api-client".toList, ['g'])], kv.1 ≠ hdrName) := by decide
+
+/-- the REST transports keep every other metadata key of the call -/
+theorem rest_keeps_other_metadata (user extra : List (List Char × List Char)) (routing : Option (List Char))
+    (k : List Char) (hk : k ≠ hdrName) :
+    restValue (callMetadata user routing extra) k = (grpcValues (user ++ extra) k).getLast? := by
+  rw [rest_value_is_last_grpc_value]
+  have hne : ¬ (hdrName = k) := fun e => hk e.symm
+  cases routing with
+  | none => simp [callMetadata]
+  | some h =>
+    simp only [callMetadata, grpcValues_append]
+    have hmid : grpcValues [(hdrName, h)] k = [] := by simp [grpcValues, hne]
+    rw [hmid, List.append_nil]
+
+/-- outside the statement (hypothesis `hu` of `transports_agree_on_routing_header`): a caller who passes an own
+`x-goog-request-params` pair gets BOTH values on gRPC and only the computed one on REST. -/
+theorem caller_supplied_header_counterexample :
+    grpcValues (callMetadata [(hdrName, ['a','=','1'])] (some ['k','=','v']) []) hdrName = [['a','=','1'], ['k','=','v']] ∧
+    restValue (callMetadata [(hdrName, ['a','=','1'])] (some ['k','=','v']) []) hdrName = some ['k','=','v'] := by
+  decide
+
+/-! ### a template without named segment in the emitted chain -/
+
+/-- outside routing.proto ("exactly one named segment"), accepted by the generator: the emitted
+`regex_match.group("<field>")` raises IndexError exactly for the values of the template's language
+(declaratively: `matchSegs`); every other value contributes nothing. -/
+theorem unnamed_chain_raises_iff_language (ct : ClassTables) (ts : List Tok) (hne : ts ≠ [])
+    (hd : dstarOnlyLast ts = true) (hl : litsOk ts = true) (v : List Char) (hnl : '\n' ∉ v) :
+    chainRaises ct ts v = matchSegs ts (splitSlash v) :=
+  unnamed_regex_language ct ts hne hd hl v hnl
+
+example : chainRaises tt2 [.lit ['p'], .star] ['p', '/', 'x'] = true ∧
+    chainRaises tt2 [.lit ['p'], .star] ['q', '/', 'x'] = false := by decide
+
+/-! ### literal segments are copied into the pattern unescaped -/
+
+/-- a collection id without `.` is inserted as the characters themselves (what `tokItems` models) -/
+theorem lit_items_plain (cs : List Char) (h : '.' ∉ cs) : litItemsReal cs = tokItems (.lit cs) := by
+  unfold litItemsReal tokItems
+  apply List.map_congr_left
+  intro c hc
+  have : c ≠ '.' := fun e => h (e ▸ hc)
+  simp [this]
+
+example : '.' ∉ ['k','8','s','-','i','t','e','m','s'] := by decide
+
+/-- outside the generated space (hypothesis of `lit_items_plain`): the literal `v1.0` also accepts
+`v1x0`; the template language does not. -/
+theorem dot_literal_counterexample :
+    (pyMatch tt2 (seqR (.bol :: litItemsReal ['v','1','.','0'] ++ [.eol])) ['v','1','x','0']).isSome = true ∧
+    scanTok (.lit ['v','1','.','0']) ['v','1','x','0'] = none := by decide
+
 /-! ## Link to the functions translated from /repo's source (harness/pyfun2lean.py) -/
 
 section Translated
